@@ -27,12 +27,27 @@ def is_coord_field(label, field):
     return field == "coord" or field.endswith("@coord")
 
 
-def run_group(ctx, rule, methods, field_filter, what, returns=True, appends=True, label_filter=None, append_filter=None):
-    """Compare the current wiring of `methods` with the reviewed reference; one obligation per record field."""
+def run_group(ctx, rule, methods, field_filter, what, returns=True, appends=True, label_filter=None, append_filter=None, global_records=False):
+    """Compare the current wiring of `methods` with the reviewed reference; one obligation per record field.
+    global_records: the selected records of all the methods are compared as ONE set (used for records that are not tied to the method that holds
+    them - error reports: moving a check from the callers into the callee, or back, moves the report but not what it says or where it points)."""
     ref = WC.load_ref()
     cur = WC.current()
     px = S.module("c_parser")
     n = 0
+    if global_records:
+        def gather(src):
+            return [r for m in sorted(methods) if m in src for r in src[m]["records"] if label_filter is None or label_filter(r[0])]
+        rm = {"records": gather(ref), "returns": [], "appends": {}}
+        cm = {"records": gather(cur), "returns": [], "appends": {}}
+        diffs = WC.diff_method(rm, cm, field_filter, want_returns=False, want_appends=False)
+        nfields = sum(1 for r in cm["records"] for k in r[1] if field_filter(r[0], k))
+        for i in range(max(nfields - len(diffs), 0)):
+            ctx.oblige(rule, f"<all>#{i}", True, nontrivial=True, sample={"rule": rule, "record": cm["records"][i % len(cm["records"])]} if i % 17 == 0 and cm["records"] else None)
+        for kind, detail in diffs:
+            ctx.oblige(rule, f"<all>:{kind}:{detail[:60]}", False)
+            ctx.violation(rule, f"wiring:<all>:{kind}:{norm(detail)[:140]}", f"{what}: {detail}", file=px.rel, function="CParser")
+        return len(cm["records"])
     for m in sorted(methods):
         if m not in ref and m not in cur:
             continue
